@@ -3,6 +3,7 @@ import math
 import random
 
 from vpm import history
+from vpm import seams
 from vpm.oracles import sphere as sp
 
 ID = "C15"
@@ -173,7 +174,7 @@ def phase_f(k):
     from pymeeus.Sun import Sun
 
     def f(t):
-        e = Epoch(t)
+        e = seams.raw_epoch(t)
         lm = Moon.apparent_ecliptical_pos(e)[0]()
         ls = Sun.apparent_geocentric_position(e)[0]()
         return wrap(lm - ls - 90.0 * k)
@@ -183,19 +184,19 @@ def phase_f(k):
 def moon_dist(t):
     from pymeeus.Epoch import Epoch
     from pymeeus.Moon import Moon
-    return Moon.geocentric_ecliptical_pos(Epoch(t))[2]
+    return Moon.geocentric_ecliptical_pos(seams.raw_epoch(t))[2]
 
 
 def moon_lat(t):
     from pymeeus.Epoch import Epoch
     from pymeeus.Moon import Moon
-    return Moon.apparent_ecliptical_pos(Epoch(t))[1]()
+    return Moon.apparent_ecliptical_pos(seams.raw_epoch(t))[1]()
 
 
 def moon_dec(t):
     from pymeeus.Epoch import Epoch
     from pymeeus.Moon import Moon
-    return Moon.apparent_equatorial_pos(Epoch(t))[1]()
+    return Moon.apparent_equatorial_pos(seams.raw_epoch(t))[1]()
 
 
 def key_far(fi, q, t):
